@@ -149,10 +149,36 @@ def is_accumulate(place, rhs):
     return False
 
 
+def is_unset_test(c, place=None):
+    """does guard c say "the cache cell is unset"?  Two encodings of an optional index are recognised: the
+    sentinel 0 (`cell == 0` true / `cell != 0` false — one canonical Eq form) and `Option` (`None` variant).
+    Returns the tested cell expression (normalised) or None."""
+    if c['kind'] == 'Eq' and c.get('truth') is True and c.get('b') is not None and facts.is_const(c['b'], 0):
+        cell = c['a']
+    elif c['kind'] == 'variant' and c.get('variants') == ['None']:
+        cell = norm(c['a'])
+    else:
+        return None
+    if place is not None and cell != norm(place):
+        return None
+    return cell
+
+
+def is_set_test(c, place=None):
+    if c['kind'] == 'Eq' and c.get('truth') is False and c.get('b') is not None and facts.is_const(c['b'], 0):
+        cell = c['a']
+    elif c['kind'] == 'variant' and c.get('variants') == ['Some']:
+        cell = norm(c['a'])
+    else:
+        return None
+    if place is not None and cell != norm(place):
+        return None
+    return cell
+
+
 def set_once_guard(fn, bi, place):
-    p = norm(place)
     for c in fn.conds(bi):
-        if c['kind'] == 'Eq' and c.get('truth') is True and c['a'] == p and facts.is_const(c['b'], 0):
+        if is_unset_test(c, place) is not None:
             return c
     return None
 
